@@ -225,6 +225,12 @@ class FakeEio(_FakeEioBase):
         if eio_sid in self.t and self.t[eio_sid].state == 'open':
             return self._trigger('message', eio_sid, data)
 
+    def recv_after_close(self, eio_sid, data):
+        """a MESSAGE packet that follows a CLOSE packet in the same polling payload: engineio/socket.py:106-115 hands
+        every packet of the payload to receive(), which does not look at `closed` for MESSAGE packets"""
+        if eio_sid in self.t and self.t[eio_sid].state == 'closed':
+            return self._trigger('message', eio_sid, data)
+
     def lose(self, eio_sid, reason='transport close'):
         tr = self.t.get(eio_sid)
         if tr is None or tr.state != 'open':
@@ -288,6 +294,11 @@ class FakeAEio(_FakeEioBase):
 
     async def recv(self, eio_sid, data):
         if eio_sid in self.t and self.t[eio_sid].state == 'open':
+            return await self._trigger('message', eio_sid, data)
+
+    async def recv_after_close(self, eio_sid, data):
+        """see FakeEio.recv_after_close (engineio/async_socket.py has the same loop)"""
+        if eio_sid in self.t and self.t[eio_sid].state == 'closed':
             return await self._trigger('message', eio_sid, data)
 
     async def lose(self, eio_sid, reason='transport close'):
